@@ -10,7 +10,7 @@ use crossbeam_channel::{Receiver, Sender};
 use super::Block;
 use crate::{VirtualPosition, gzi};
 
-type BufferedRx = Receiver<io::Result<Buffer>>;
+type BufferedRx = Receiver<(io::Result<()>, Buffer)>;
 type ReadTx = Sender<BufferedRx>;
 type ReadRx = Receiver<BufferedRx>;
 type RecycleTx = Sender<Buffer>;
@@ -232,7 +232,15 @@ where
             panic!("invalid state");
         };
 
-        while let Some(mut buffer) = recv_buffer(read_rx)? {
+        while let Some((result, mut buffer)) = recv_buffer(read_rx) {
+            if let Err(e) = result {
+                // The frame was taken from the stream: keep the position in step with it, and
+                // hand the buffer back to the reader thread.
+                self.position += buffer.buf.len() as u64;
+                recycle_tx.send(buffer).ok();
+                return Err(e);
+            }
+
             buffer.block.set_position(self.position);
             self.position += buffer.block.size();
 
@@ -352,14 +360,11 @@ where
     }
 }
 
-fn recv_buffer(read_rx: &ReadRx) -> io::Result<Option<Buffer>> {
-    if let Ok(buffered_rx) = read_rx.recv()
-        && let Ok(buffer) = buffered_rx.recv()
-    {
-        return buffer.map(Some);
-    }
-
-    Ok(None)
+fn recv_buffer(read_rx: &ReadRx) -> Option<(io::Result<()>, Buffer)> {
+    read_rx
+        .recv()
+        .ok()
+        .and_then(|buffered_rx| buffered_rx.recv().ok())
 }
 
 struct ReadError<R>(R, io::Error);
@@ -385,8 +390,8 @@ where
             let (buffered_tx, buffered_rx) = crossbeam_channel::bounded(1);
 
             rayon::spawn(move || {
-                let result = parse_block(&buffer.buf, &mut buffer.block).map(|_| buffer);
-                let _ = buffered_tx.send(result);
+                let result = parse_block(&buffer.buf, &mut buffer.block);
+                let _ = buffered_tx.send((result, buffer));
             });
 
             if read_tx.send(buffered_rx).is_err() {
